@@ -25,6 +25,7 @@ type faultOutcome struct {
 	Committed  bool
 	CommitCall int // number of backend calls the commit (and its rollback) made
 	Trace      []txh.Site
+	PreDisk    *txh.Reach // the disk before the victim ran
 }
 
 // prepare builds an env and replays the committed prefix h.Txns[:victim] without faults.
@@ -59,6 +60,9 @@ func runVictim(e *txh.Env, h txh.History, victim int, models []*txh.Model, plan 
 	var out faultOutcome
 	var before int
 	var tx *txh.Txn
+	if plan != nil {
+		out.PreDisk = txh.ReadDisk(e.Dir)
+	}
 	// a bounded commit time: a transaction blocked by something an earlier failure left behind gives up
 	// after 8 s instead of spinning for the 15 minute default
 	after, res := e.RunTxn(h.Txns[victim], h.Stores, models, txh.RunOpts{MaxTime: 8 * time.Second, BeforeCommit: func(t *txh.Txn) {
@@ -158,6 +162,11 @@ func judgeFault(e *txh.Env, h txh.History, victim int, pre, post []*txh.Model, o
 		// (pairs: a rollback step that failed half-way may leave an unreachable entry behind, e.g. the registry entry of
 		// a new root whose blob it had already removed; the reader-level comparison above is what is asserted for them)
 		return fmt.Sprintf("%s, commit error %v: %s", where, out.CommitErr, strings.Join(pr, "; "))
+	}
+	if out.PreDisk != nil && !out.Committed && out.Site2 == "" {
+		if lost := r.LostSince(out.PreDisk); len(lost) > 0 {
+			return fmt.Sprintf("%s, commit error %v: %s", where, out.CommitErr, strings.Join(lost, "; "))
+		}
 	}
 	if orphanCensus != nil && !out.Committed && out.Site2 == "" {
 		if msg := orphanCensus(r, h, victim); msg != "" {
